@@ -3544,8 +3544,7 @@ static PyObject* her2k(PyObject *self, PyObject *args, PyObject *kwrds)
 
     if (ao && number_from_pyobject(ao, &a, MAT_ID(A)))
         err_type("alpha");
-    if (bo && number_from_pyobject(bo, &b, MAT_ID(A)))
-        err_type("beta");
+    if (bo && number_from_pyobject(bo, &b, DOUBLE)) err_type("beta");
     if (!bo) b.d = 0.0;
 
     switch (MAT_ID(A)){
